@@ -88,3 +88,13 @@ func init() {
 		Assume: schedExploreAssume,
 	}
 }
+
+func init() {
+	cfgs["C15"] = checkCfg{
+		Variant: "sched", Validate: true,
+		Stride: map[string]int{"quick": 40, "thorough": 20},
+		Budget: dur(170, 1700),
+		Rule:   "module graphs: (F1) every visibility configuration of a library (f: absent/private/pub, g, v, type T) x every subset of items imported by main; (F2) every pair of library shapes x main shapes where several modules define the same private names (tag, cnt, helper, f), called once or twice; (F3) every subset of 12 candidate import edges over modules main/a/b/c incl. cycles through and not through main, self imports and a missing module; oracle = reference linker: error diagnostic iff an import is illegal (private/missing item, missing module, cycle); for legal graphs the output of both backends equals the expected one (each imported function runs its own body against its own module's globals, each module's globals initialised once); distinct = distinct (verdict, configuration) records",
+		Assume: schedAssume,
+	}
+}
